@@ -88,11 +88,13 @@ pub struct Ctx {
     pub built: u64,
     /// per-thread memo for reference observations (e.g. a text on a fresh calculator)
     pub memo: HashMap<String, String>,
+    /// a calculator a check may take, mutate and hand back after undoing its changes
+    pub pool: Option<SmartCalc>,
 }
 
 impl Ctx {
     pub fn new() -> Ctx {
-        Ctx { calcs: HashMap::new(), built: 0, memo: HashMap::new() }
+        Ctx { calcs: HashMap::new(), built: 0, memo: HashMap::new(), pool: None }
     }
     /// A long-lived calculator for this configuration (re-used between cases: evaluation
     /// takes `&self`; that re-use is harmless is exactly what C04 checks separately, and every
